@@ -6,6 +6,7 @@
 -/
 import Crs.Parser
 import CrsProofs.Lines
+import CrsProofs.NestedInclude
 namespace Crs.Props
 open Crs Crs.Pat Crs.Parser
 
@@ -65,6 +66,27 @@ theorem C05_plain_include (fs : Fs) (o1 o2 : Ord) (fuel : Nat) (st : PState) (li
   simp only [List.append_nil] at hp
   rw [hp]
   simp [parseLines, wrapInclude, replaceSuffixes, expandDefinitions]
+
+/-- **C05 (nested includes, any depth).** Let the included file and every file it includes (to depth `d`, within the
+    parser's bound) consist of entries, comments, blank lines and further plain includes. Then `##!> include F` parses
+    exactly like the recursively expanded lines typed at that position: the state afterwards is the state before with
+    `expandAt fs d F` — the files' entries, in order, indentation stripped — appended to the text, for every parser
+    state and continuation. Definitions, flags, prefixes and suffixes are untouched. -/
+theorem C05_nested_include (fs : Fs) (o1 o2 : Ord) (fuel d : Nat) (hd : d ≤ fuel) (st : PState) (line name text : Bytes)
+    (rest : List Bytes)
+    (hnb : isBlank (trimLeftSpTab line) = false) (hnc : comment? (trimLeftSpTab line) = false)
+    (hnd : definition? (trimLeftSpTab line) = none)
+    (hinc : include? (trimLeftSpTab line) = some (name, []))
+    (hexp : expandAt fs d name = some text) :
+    parseLines fs o1 o2 fuel st (line :: rest) = parseLines fs o1 o2 fuel { st with out := st.out ++ text } rest := by
+  have h1 : expandWith (expandAt fs d) [line] = some text := by
+    simp [expandWith, hnb, hnc, hnd, hinc, hexp]
+  have := parseLines_expand fs o1 o2 d fuel hd [line] text h1 st rest
+  simpa using this
+
+/-- non-vacuity: a file including a file including a word list expands to all entries in order -/
+def nestedFs : Fs := { inc := [("outer.ra".toList, "a\n##!> include mid\nz\n".toList), ("mid.ra".toList, "  b\n##! c\n##!> include inner\n".toList), ("inner.ra".toList, "c\nd\n".toList)] }
+example : expandAt nestedFs 3 "outer".toList = some "a\nb\nc\nd\nz\n".toList := by decide +kernel
 
 /-- **C05 (flags rejected).** An include file whose parse ends with a non-empty flag set is an error, not a merge. -/
 theorem C05_flags_rejected (fs : Fs) (o1 o2 : Ord) (fuel : Nat) (name contents : Bytes) (defs : Vars) (stF : PState)
